@@ -301,6 +301,11 @@ def directed_case(ctx, which, kind, prefix):
                 recs.append({'category': 'Deep', 'data': data, 'metadata': md})
         elif which == 'reserved':
             recs.append({'category': 'Op', 'data': {k: ['value of', k] for k in RESERVED_LOOKING}, 'metadata': {'id': 'not-the-id', '_id': 5, 'k': 1}})
+            # metadata keys that spell the serializer's own key escapes / tags
+            recs.append({'category': 'Op', 'data': {'k': 1}, 'metadata': {'json://orders/v1': 3, 'nested': {'json://a': [1], 'py/x': 2}, 'json://': 0, 'plain': {'a': 1}}})
+            # recordings that came from elsewhere and keep the id they were given there (another layout than this cassette's own)
+            for foreign in ('Imported/0123456789abcdef', 'Op/20240310', 'flat-id-without-category', 'Op/2024/03/10/abc', '/20240310/no-category'):
+                recs.append({'category': 'Op', 'data': {'from': foreign}, 'metadata': {'imported': True}, 'id': foreign})
             for k in RESERVED_LOOKING[:8]:
                 recs.append({'category': 'Op', 'data': {k: {'only': k}}, 'metadata': {}})
         elif which == 'many':
@@ -308,7 +313,11 @@ def directed_case(ctx, which, kind, prefix):
             for i in range(n):
                 recs.append({'category': 'Bulk', 'data': {'i': i}, 'metadata': {'i': i}})
         for r in recs:
-            rec = cas.create_new_recording(r['category'])
+            if r.get('id'):
+                from playback.recordings.memory.memory_recording import MemoryRecording as _MR
+                rec = _MR(r['id'])
+            else:
+                rec = cas.create_new_recording(r['category'])
             r['id'] = rec.id
             for k, v in r['data'].items():
                 rec.set_data(k, v)
@@ -318,7 +327,7 @@ def directed_case(ctx, which, kind, prefix):
                 cas.save_recording(rec)
             except Exception as ex:
                 ctx.violation('saving a recording whose keys and values the serializer handles raised %s on %s cassette' % (type(ex).__name__, kind),
-                              dict(witness, error=repr(ex)[:200], keys=sorted(r['data'])[:5]))
+                              dict(witness, error=repr(ex)[:200], keys=sorted(r['data'])[:5], id=r['id']))
                 return
         ctx.case(witness, nontrivial=bool(recs))
         ctx.count('directed_%s_recordings_saved' % which, len(recs))
@@ -326,6 +335,60 @@ def directed_case(ctx, which, kind, prefix):
         probe = recs if which != 'many' else [recs[0], recs[1], recs[len(recs) // 2], recs[-1]] + recs[::997]
         for r in probe:
             check_fetch(ctx, reader, r, kind, witness)
+
+
+def forked_writers(ctx, kind, prefix):
+    """A pre-fork server: the cassette object exists (and has been used) in the master; two workers forked from it each create and save
+    a recording. Their ids differ, and (file cassette, the one store two processes really share here) both recordings are there afterwards."""
+    import json
+    import os
+    witness = {'directed': 'forked_writers', 'kind': kind, 'prefix': prefix}
+    with open_box(kind, prefix=prefix) as box:
+        cas = box.cassette
+        first = cas.create_new_recording('Op')
+        first.set_data('who', 'master')
+        cas.save_recording(first)
+        got = []
+        for worker in (1, 2):
+            rfd, wfd = os.pipe()
+            pid = os.fork()
+            if pid == 0:
+                try:
+                    os.close(rfd)
+                    r = cas.create_new_recording('Op')
+                    r.set_data('who', 'worker-%d' % worker)
+                    r.add_metadata({'worker': worker})
+                    cas.save_recording(r)
+                    os.write(wfd, json.dumps(r.id).encode())
+                finally:
+                    os._exit(0)
+            os.close(wfd)
+            buf = b''
+            while True:
+                chunk = os.read(rfd, 65536)
+                if not chunk:
+                    break
+                buf += chunk
+            os.close(rfd)
+            os.waitpid(pid, 0)
+            got.append(json.loads(buf.decode()) if buf else None)
+        ctx.case(witness)
+        ctx.count('forked_writer_pairs')
+        if None in got:
+            ctx.inconclusive('a forked writer did not report its recording id')
+            return
+        if len(set(got + [first.id])) != 3:
+            ctx.violation('recording ids handed out in processes forked from one master are not distinct', dict(witness, ids=got + [first.id]))
+            return
+        if kind == 'file':
+            reader = box.reader()
+            for worker, rid in enumerate(got, 1):
+                try:
+                    ok = reader.get_recording(rid).get_data('who') == 'worker-%d' % worker
+                except Exception:
+                    ok = False
+                if not ok:
+                    ctx.violation('a recording saved by a forked worker is not fetchable with its own content', dict(witness, worker=worker))
 
 
 def two_writers_and_odd_ids(ctx, kind, prefix):
@@ -410,6 +473,7 @@ def run(ctx):
             for which in ('deep', 'reserved', 'many'):
                 directed_case(ctx, which, kind, prefix)
             two_writers_and_odd_ids(ctx, kind, prefix)
+            forked_writers(ctx, kind, prefix)
     n = ctx.budget(300, 10000)
     base = ctx.seed * 1000003 + ctx.shard * 100000
     for i in range(n):
@@ -421,6 +485,8 @@ def run(ctx):
 
 
 def replay(ctx, w):
+    if w.get('directed') == 'forked_writers':
+        return forked_writers(ctx, w['kind'], w['prefix'])
     if w.get('directed') == 'two_writers_and_odd_ids':
         return two_writers_and_odd_ids(ctx, w['kind'], w['prefix'])
     if w.get('directed'):
